@@ -274,6 +274,62 @@ pub fn run_workload(sub: u64, only_leg: Option<&str>, acc: &mut Acc, ctx: &Ctx, 
         }
     }
 
+    // ---- file truncated between listing and reading --------------------------------
+    if want("truncated") && !files.is_empty() && matches!(w.mode.as_str(), "standard" | "count") && w.threads == 1 {
+        let victim = files[rng.below(files.len())].clone();
+        let j = rng.below(3);
+        let spec = mk(vec![format!("read_eof=/w/{victim}:{j}"), "read_frag=5".into()], &["--no-mmap"]);
+        let ref2_spec = mk(vec!["read_frag=5".into()], &["--no-mmap"]);
+        let ref2 = ctx.run(&cwd, &ref2_spec, 30);
+        let got = ctx.run(&cwd, &spec, 30);
+        acc.evals += 2;
+        digest = digest_out(digest_out(digest, &ref2), &got);
+        acc.faults.add("read-EOF-early(file truncated)", got.fired("read_eof").min(1));
+        if got.fired("read_eof") > 0 {
+            let detail = json!({"victim": victim, "eof_from_read": j});
+            if !got.stderr.is_empty() {
+                acc.violation("C15", "truncation-reported-as-error", format!("w/{victim} ended early (truncated): stderr {:?}", show(&got.stderr)), sub, replay_body(sub, &w, "truncated", &spec, Some(&ref2), &got, detail.clone()));
+            }
+            let exp_other: Vec<&[u8]> = lines(&ref2.stdout).into_iter().filter(|l| !belongs(l, &victim)).collect();
+            let got_other: Vec<&[u8]> = lines(&got.stdout).into_iter().filter(|l| !belongs(l, &victim)).collect();
+            let exp_v: Vec<&[u8]> = lines(&ref2.stdout).into_iter().filter(|l| belongs(l, &victim)).collect();
+            let got_v: Vec<&[u8]> = lines(&got.stdout).into_iter().filter(|l| belongs(l, &victim)).collect();
+            let victim_ok = if w.mode == "count" {
+                let n = |v: &Vec<&[u8]>| v.first().and_then(|l| String::from_utf8_lossy(l).rsplit(':').next().and_then(|x| x.parse::<u64>().ok())).unwrap_or(0);
+                n(&got_v) <= n(&exp_v)
+            } else {
+                // the last delivered line may itself be cut short by the truncation
+                got_v.len() <= exp_v.len() && (got_v.is_empty() || got_v[..got_v.len() - 1] == exp_v[..got_v.len() - 1]) && got_v.last().map_or(true, |l| exp_v[got_v.len() - 1].starts_with(l))
+            };
+            if exp_other != got_other || !victim_ok {
+                acc.violation("C15", "truncation-results-not-prefix", format!("w/{victim} truncated at read {j}: other files changed or its results are not a prefix"), sub, replay_body(sub, &w, "truncated", &spec, Some(&ref2), &got, detail.clone()));
+            }
+            let exp = if got.stdout.is_empty() { 1 } else { 0 };
+            if got.code != exp {
+                acc.violation("C15", "status-with-truncated-file", format!("w/{victim} truncated: exit {} expected {exp}", got.code), sub, replay_body(sub, &w, "truncated", &spec, Some(&ref2), &got, detail));
+            }
+        }
+    }
+
+    // ---- dangling symlink, followed ---------------------------------------------------
+    if want("dangling-follow") && !w.corpus.links.is_empty() && w.mode != "quiet" {
+        let spec = mk(vec!["noop=1".into()], &["-L"]);
+        let got = ctx.run(&cwd, &spec, 30);
+        acc.evals += 1;
+        digest = digest_out(digest, &got);
+        acc.faults.inc("dangling-symlink-followed");
+        let names = String::from_utf8_lossy(&got.stderr).contains("dangling.txt");
+        if !names || got.code != 2 {
+            acc.violation("C15", "dangling-symlink-with-follow", format!("-L with a dangling symlink: exit {} (expected 2), stderr {:?}", got.code, show(&got.stderr)), sub, replay_body(sub, &w, "dangling-follow", &spec, Some(&reference), &got, json!(null)));
+        }
+        if line_mode {
+            let same = if w.threads == 1 { lines(&got.stdout) == lines(&reference.stdout) } else { sorted(&lines(&got.stdout)) == sorted(&lines(&reference.stdout)) };
+            if !same {
+                acc.violation("C15", "other-results-suppressed", "a dangling symlink (with -L) changed the results of other files".into(), sub, replay_body(sub, &w, "dangling-follow", &spec, Some(&reference), &got, json!(null)));
+            }
+        }
+    }
+
     // ---- stdout closed after k bytes -------------------------------------------
     if want("epipe") && !reference.stdout.is_empty() {
         // (k is chosen on the time-masked output so that the choice does not
